@@ -56,6 +56,9 @@ POOL = [
     ("3 & 1", ("amp",)),
     ("'<b>' + str(A)", ("lt", "gt")),
     ("'a&b'", ("amp",)),
+    # (non-ASCII letters may be written as named character entities)
+    ("'\u03be'", ("nonlatin",)),
+    ("'\u039e\u00e9' + str(A)", ("nonlatin",)),
     # ampersands that are written as such (\2) and do not start a character
     # entity (no terminating semicolon): they reach the evaluator unchanged
     ("'?a=1\2copy=2\2reg_id=3'", ("rawamp",)),
